@@ -199,7 +199,16 @@ func Gen(seed uint64, focus string) *Scenario {
 		case 2:
 			f.Kind, f.Code = "errAppend", []sarama.KError{sarama.ErrRequestTimedOut, sarama.ErrNotEnoughReplicasAfterAppend}[r.Intn(2)]
 		case 3:
-			f.Kind, f.Code = "err", fatal[r.Intn(len(fatal))]
+			// any broker error code at all (the whole KError range), not only the ones the producer names
+			if r.Bool() {
+				f.Kind, f.Code = "err", fatal[r.Intn(len(fatal))]
+			} else {
+				f.Kind, f.Code = "err", sarama.KError(r.Range(1, 96))
+				if f.Code == sarama.ErrDuplicateSequenceNumber || f.Code == sarama.ErrOutOfOrderSequenceNumber || f.Code == sarama.ErrInvalidProducerEpoch {
+					// sequence verdicts are given by the broker's idempotence rules only (a scripted one would be an unfaithful broker)
+					f.Code = sarama.ErrUnknown
+				}
+			}
 		case 4:
 			f.Kind = "dropBefore"
 		case 5:
